@@ -86,6 +86,8 @@ pub const KEYS: &[(&str, &str, &str)] = &[
     ("nasty", "nasty.amp", "a & b < c > d [{L}]"),
     ("nasty", "nasty.script_upper", "x </SCRIPT> y </ScRiPt > z <SCRIPT>w [{L}]"),
     ("nasty", "nasty.comment_script", "<!--<script> still inside </script --> [{L}]"),
+    // U+0000 directly followed by digits: `\0` + digit would be a legacy octal escape in an inline script
+    ("nasty", "nasty.nul", "field\u{0}7 of 9, \u{0}12 and \u{0}8 [{L}]"),
     // a unit whose table is empty for en and de (only an interpolation), non-empty for the other locales
     ("bare", "bare.only", "7{BARE}"),
     // a namespace whose name is not an identifier: the unit id carries the name, not the identifier
@@ -119,8 +121,9 @@ fn text_node(i18n: leptos_i18n::I18nContext<Locale>, key: usize, n: usize) -> An
         9 => view! { <p data-n=id>{t!(i18n, nasty.amp)}</p> }.into_any(),
         10 => view! { <p data-n=id>{t!(i18n, nasty.script_upper)}</p> }.into_any(),
         11 => view! { <p data-n=id>{t!(i18n, nasty.comment_script)}</p> }.into_any(),
-        12 => view! { <p data-n=id>{t!(i18n, bare.only, x = "7")}</p> }.into_any(),
-        13 => view! { <p data-n=id>{t!(i18n, side_bar.title)}</p> }.into_any(),
+        12 => view! { <p data-n=id>{t!(i18n, nasty.nul)}</p> }.into_any(),
+        13 => view! { <p data-n=id>{t!(i18n, bare.only, x = "7")}</p> }.into_any(),
+        14 => view! { <p data-n=id>{t!(i18n, side_bar.title)}</p> }.into_any(),
         _ => {
             let scoped = scope_i18n!(i18n, side_bar);
             view! { <p data-n=id>{t!(scoped, entry, n = 4)}</p> }.into_any()
@@ -133,7 +136,8 @@ pub enum Node {
     Text { key: usize },
     Set { l: usize },
     /// a sub-context provider; `inner`: another sub-context provider nested inside it (init, keys)
-    Sub { init: Option<usize>, keys: Vec<usize>, inner: Option<(Option<usize>, Vec<usize>)> },
+    /// `lazy`: one more child that looks its context up only when it is rendered (`{move || ..}`), not when it is built
+    Sub { init: Option<usize>, keys: Vec<usize>, inner: Option<(Option<usize>, Vec<usize>)>, lazy: bool },
     Suspense { gate: usize, key: usize },
 }
 
@@ -142,7 +146,8 @@ impl Node {
         match self {
             Node::Text { key } => json!({"t": "text", "key": KEYS[*key % KEYS.len()].1}),
             Node::Set { l } => json!({"t": "set", "l": LOCS[*l % LOCS.len()]}),
-            Node::Sub { init, keys, inner } => json!({
+            Node::Sub { init, keys, inner, lazy } => json!({
+                "lazy": lazy,
                 "t": "sub", "init": init.map(|l| LOCS[l % LOCS.len()]), "keys": keys.iter().map(|k| KEYS[*k % KEYS.len()].1).collect::<Vec<_>>(),
                 "inner": inner.as_ref().map(|(i, ks)| json!({"init": i.map(|l| LOCS[l % LOCS.len()]), "keys": ks.iter().map(|k| KEYS[*k % KEYS.len()].1).collect::<Vec<_>>()})),
             }),
@@ -159,6 +164,7 @@ impl Node {
                 init: l(&v["init"]),
                 keys: v["keys"].as_array().map(|a| a.iter().map(key).collect()).unwrap_or_default(),
                 inner: v["inner"].as_object().map(|o| (l(&o["init"]), o["keys"].as_array().map(|a| a.iter().map(key).collect()).unwrap_or_default())),
+                lazy: v["lazy"].as_bool().unwrap_or(false),
             },
             "suspense" => Node::Suspense { gate: v["gate"].as_u64().unwrap_or(0) as usize, key: key(&v["key"]) },
             _ => return None,
@@ -187,6 +193,9 @@ pub struct Request {
     /// the provider's first child is built lazily (`{move || ..}`, `<Show>`, a route outlet) and sets this locale
     /// while it is being rendered, after the whole page was constructed
     pub lazy_set: Option<usize>,
+    /// a translation read once while the page is being built (a component body, `AsyncDerived::new(.. t_string! ..)`):
+    /// index into EAGER_KEYS
+    pub eager_build: Option<usize>,
 }
 
 /// (namespace, label, expected text template) of the run-once accesses
@@ -224,7 +233,7 @@ impl Plan {
         json!({
             "requests": self.requests.iter().map(|r| json!({
                 "cookie": r.cookie, "accept": r.accept, "in_order": r.in_order, "start_at": r.start_at, "drop_after_chunks": r.drop_after_chunks,
-                "provider": r.provider, "under_suspense": r.under_suspense, "eager": r.eager.map(|(k, g)| json!([k, g])), "manual": r.manual, "lazy_set": r.lazy_set.map(|l| LOCS[l % LOCS.len()]),
+                "provider": r.provider, "under_suspense": r.under_suspense, "eager": r.eager.map(|(k, g)| json!([k, g])), "manual": r.manual, "lazy_set": r.lazy_set.map(|l| LOCS[l % LOCS.len()]), "eager_build": r.eager_build,
                 "page": r.page.iter().map(|n| n.to_json()).collect::<Vec<_>>(),
             })).collect::<Vec<_>>(),
             "gates": self.gates, "policy": self.policy.name(), "schedule": schedule,
@@ -246,6 +255,7 @@ impl Plan {
                 eager: r["eager"].as_array().map(|a| (a[0].as_u64().unwrap_or(0) as usize, a[1].as_u64().unwrap_or(0) as usize)),
                 manual: r["manual"].as_bool().unwrap_or(false),
                 lazy_set: LOCS.iter().position(|k| Some(*k) == r["lazy_set"].as_str()),
+                eager_build: r["eager_build"].as_u64().map(|k| k as usize),
             })
             .collect();
         let gates = v["gates"].as_array().map(|a| a.iter().map(|g| g.as_u64()).collect()).unwrap_or_default();
@@ -267,7 +277,7 @@ pub fn generate(rng: &mut Rng) -> Plan {
             0 => String::new(),
             _ => format!("{cname}={}", rng.pick(&["en", "fr", "fr-CA", "de", "pt-br", "zh", "zh-Hant", "ar", "pt-BR", "xx"])),
         };
-        let accept = rng.pick(&["", "fr", "de,en;q=0.5", "pt-BR", "fr-CA,fr;q=0.9", "es", "zh-Hant-TW", "zh-CN", "ar-EG,en;q=0.5"]).to_string();
+        let accept = rng.pick(&["", "fr", "de,en;q=0.5", "pt-BR", "fr-CA,fr;q=0.9", "es", "zh-Hant-TW", "zh-CN", "ar-EG,en;q=0.5", "es-ES,es,pt-PT,pt,it,nl,sv,da,pl,cs,fr-FR,fr,en"]).to_string();
         let n_nodes = 1 + rng.below(7);
         let mut page = vec![];
         for _ in 0..n_nodes {
@@ -277,6 +287,7 @@ pub fn generate(rng: &mut Rng) -> Plan {
                     init: if rng.chance(2, 3) { Some(rng.below(LOCS.len())) } else { None },
                     keys: (0..1 + rng.below(2)).map(|_| rng.below(KEYS.len())).collect(),
                     inner: if rng.chance(1, 3) { Some((if rng.chance(1, 3) { Some(rng.below(LOCS.len())) } else { None }, vec![rng.below(KEYS.len())])) } else { None },
+                    lazy: rng.chance(1, 3),
                 },
                 3 | 4 if n_gates > 0 => Node::Suspense { gate: rng.below(n_gates), key: rng.below(KEYS.len()) },
                 _ => Node::Text { key: rng.below(KEYS.len()) },
@@ -295,7 +306,11 @@ pub fn generate(rng: &mut Rng) -> Plan {
             eager: if n_gates > 0 && rng.chance(1, 4) { Some((rng.below(EAGER_KEYS.len()), rng.below(n_gates))) } else { None },
             manual: false,
             lazy_set: None,
+            eager_build: None,
         });
+        if rng.chance(1, 5) {
+            requests.last_mut().unwrap().eager_build = Some(rng.below(EAGER_KEYS.len()));
+        }
         if rng.chance(1, 6) {
             // a locale change made while rendering: the run-once access is left out (whether its single read comes
             // before or after that change is Leptos' business, not the property's)
@@ -349,7 +364,7 @@ struct ResponseState {
 }
 
 fn page_view(r: Request, gates: Vec<Gate>, set_cookies: Arc<Mutex<ResponseState>>) -> impl IntoView {
-    let Request { page, cookie, accept, provider, under_suspense, eager, lazy_set, .. } = r;
+    let Request { page, cookie, accept, provider, under_suspense, eager, lazy_set, eager_build, .. } = r;
     let copts = {
         let sc = set_cookies.clone();
         CookieOptions::<Locale>::default().ssr_cookies_header_getter(move || Some(cookie.clone())).ssr_set_cookie(move |c| {
@@ -384,7 +399,8 @@ fn page_view(r: Request, gates: Vec<Gate>, set_cookies: Arc<Mutex<ResponseState>
                     // what the router's view wrapper does while rendering a localized route
                     i18n.set_locale(loc(*l));
                 }
-                Node::Sub { init, keys, inner } => {
+                Node::Sub { init, keys, inner, lazy } => {
+                    let lazy = *lazy;
                     let keys = keys.clone();
                     let inner = inner.clone();
                     let base = (n + 1) * 1000;
@@ -392,6 +408,16 @@ fn page_view(r: Request, gates: Vec<Gate>, set_cookies: Arc<Mutex<ResponseState>
                     let children = move || {
                         let sub = use_i18n();
                         let mut v: Vec<AnyView> = keys.iter().enumerate().map(|(j, k)| text_node(sub, *k, base + j + 1)).collect();
+                        if lazy {
+                            let k = keys[0];
+                            v.push(
+                                (move || {
+                                    let found = use_i18n();
+                                    text_node(found, k, base + 900)
+                                })
+                                .into_any(),
+                            );
+                        }
                         if let Some((iinit, ikeys)) = inner.clone() {
                             // a sub-context nested in a sub-context: its parent is the enclosing sub-context
                             let inner_children = move || {
@@ -435,6 +461,17 @@ fn page_view(r: Request, gates: Vec<Gate>, set_cookies: Arc<Mutex<ResponseState>
                     );
                 }
             }
+        }
+        if let Some(k) = eager_build {
+            // read while the page is built: the server holds every table, so the accessor's future is ready at once
+            use futures::FutureExt;
+            let i18n = use_i18n();
+            let label = match k % EAGER_KEYS.len() {
+                0 => t_string!(i18n, common.bye, name = "E").now_or_never().map(|s| s.to_string()),
+                _ => t_string!(i18n, common.app.version, v = 3).now_or_never().map(|s| s.to_string()),
+            }
+            .unwrap_or_else(|| "<pending>".to_string());
+            out.push(view! { <p data-b="1" title=label>"b"</p> }.into_any());
         }
         if let Some((k, g)) = eager {
             // a translation read exactly once, inside a future, before the future waits for its data
@@ -613,7 +650,24 @@ impl<'a> Js<'a> {
                         b'b' => Some('\u{8}'),
                         b'f' => Some('\u{c}'),
                         b'v' => Some('\u{b}'),
-                        b'0' => Some('\0'),
+                        // sloppy-mode inline script: `\0` not followed by a digit is NUL, otherwise a legacy octal escape
+                        // (Annex B): up to three octal digits, value <= 0o377; `\8` and `\9` are identity escapes
+                        b'0'..=b'7' => {
+                            let mut v = (e - b'0') as u32;
+                            let max_digits = if e <= b'3' { 3 } else { 2 };
+                            let mut n = 1;
+                            while n < max_digits {
+                                match self.s.get(self.i) {
+                                    Some(d @ b'0'..=b'7') => {
+                                        v = v * 8 + (*d - b'0') as u32;
+                                        self.i += 1;
+                                        n += 1;
+                                    }
+                                    _ => break,
+                                }
+                            }
+                            char::from_u32(v)
+                        }
                         b'x' => {
                             let h = std::str::from_utf8(self.s.get(self.i..self.i + 2).ok_or("short \\x")?).map_err(|e| e.to_string())?;
                             self.i += 2;
@@ -730,6 +784,8 @@ fn resolve(r: &Request) -> usize {
 
 struct Expect {
     main_locale: usize,
+    /// the main context's locale when construction of the page ended (before anything is rendered)
+    build_locale: usize,
     /// units rendered synchronously inside the provider: must be embedded
     must: BTreeSet<(String, String)>,
     /// units touched only inside a suspended subtree: may be embedded
@@ -755,7 +811,13 @@ fn expect(r: &Request) -> Expect {
                 must.insert((LOCS[main_locale].to_string(), k.0.to_string()));
                 texts.push((n, expected_text(*key, LOCS[main_locale]), false));
             }
-            Node::Sub { init, keys, inner } => {
+            Node::Sub { init, keys, inner, lazy } => {
+                if *lazy {
+                    // looked up at render time: still the sub-context of the provider it is written in
+                    let l = init.map(|l| l % LOCS.len()).unwrap_or(current);
+                    must.insert((LOCS[l].to_string(), KEYS[keys[0] % KEYS.len()].0.to_string()));
+                    texts.push(((n + 1) * 1000 + 900, expected_text(keys[0], LOCS[l]), false));
+                }
                 // created during construction: explicit initial locale, else the parent's locale at that moment
                 let l = init.map(|l| l % LOCS.len()).unwrap_or(current);
                 for (j, key) in keys.iter().enumerate() {
@@ -780,11 +842,16 @@ fn expect(r: &Request) -> Expect {
             }
         }
     }
+    if let Some(k) = r.eager_build {
+        // read while the page is built, after every `Set` node ran
+        must.insert((LOCS[current].to_string(), EAGER_KEYS[k % EAGER_KEYS.len()].0.to_string()));
+    }
+    let build_locale = current;
     if let Some((k, _)) = r.eager {
         // read once inside a future, at the future's first poll, which happens while the page is first walked
         must.insert((LOCS[main_locale].to_string(), EAGER_KEYS[k % EAGER_KEYS.len()].0.to_string()));
     }
-    Expect { main_locale, must, may, texts }
+    Expect { main_locale, build_locale, must, may, texts }
 }
 
 // ------------------------------------------------------------------ execution
@@ -1011,6 +1078,14 @@ pub fn handle(req: &Value) -> Value {
                 *probes.entry("run_once_access_checked".into()).or_default() += 1;
             } else {
                 violations.push(Violation { property: "C16", invariant: "rendered_text", signature: "a translation read once inside a future shows another locale or key".into(), detail: format!("request {i}: expected {want}") });
+            }
+        }
+        if let Some(k) = r.eager_build {
+            let want = format!("data-b=\"1\" title=\"{}\"", EAGER_KEYS[k % EAGER_KEYS.len()].2.replace("{L}", LOCS[exp.build_locale]));
+            if html.contains(&want) || (!st.complete && !html.contains("data-b=")) {
+                *probes.entry("build_time_access_checked".into()).or_default() += 1;
+            } else {
+                violations.push(Violation { property: "C16", invariant: "rendered_text", signature: "a translation read while the page is built shows another locale or key".into(), detail: format!("request {i}: expected {want}") });
             }
         }
         // <html lang dir>: the final main locale, when the provider is asked to set them (its defaults)
